@@ -530,6 +530,7 @@ func runPredecodeStream(c *Ctx, n int) {
 			}
 		}
 		raw = []byte(s)
+		noteDoc("c20-predecode:"+fmt.Sprintf("shape%d", shape), raw)
 		wire := raw
 		if r.Intn(3) == 0 && shape != 13 {
 			wire = deflateBytes(raw, -1)
